@@ -170,6 +170,7 @@ def frames_jobs(seed, pid, n):
 PLANS["C04"] = {
     "jobs": lambda seed, tier: spread(seed, "C04", N(tier, 80, 1600), ALL_LOGICS, "incremental") +
                                spread(seed, "C04c", N(tier, 90, 1800), ["QF_BOOL", "QF_LRA", "QF_UF", "QF_LIA", "QF_IDL", "QF_UFLRA"], "incremental", mode="cnf") +
+                               spread(seed, "C04r", N(tier, 40, 800), ["QF_UFLIA", "QF_UFLRA", "QF_UFLRA", "QF_LRA"], "incremental", mode="reenter") +
                                frames_jobs(seed, "C04f", N(tier, 120, 2400)),
     "mc": [{"module": "MC_MainSolver", "cfg": "MC_MainSolver_quick", "cfg_thorough": "MC_MainSolver", "workers": 8, "timeout": 1500},
            {"module": "MC_MainSolver", "cfg": "MC_MainSolver_nocf", "expect_fail": True, "owner": False},
